@@ -1106,15 +1106,26 @@ func r1412(c *an.Ctx) {
 			continue
 		}
 		keyed := false
+		// (the bookkeeping may live in a helper of the package the forwarder calls with the change)
+		scan := []*ssa.Function{fn}
 		an.Instrs(fn, func(in ssa.Instruction) {
-			if mu, ok := in.(*ssa.MapUpdate); ok {
-				for _, s0 := range an.Sources(mu.Key) {
-					if _, sn, f, isF := an.FieldOf(s0); isF && f == "Id" && strings.HasSuffix(sn, "pkg/resource.CollectionChange") {
-						keyed = true
-					}
+			if hc, ok := in.(*ssa.Call); ok {
+				if g := hc.Call.StaticCallee(); g != nil && g.Pkg == fn.Pkg && len(g.Blocks) > 0 {
+					scan = append(scan, g)
 				}
 			}
 		})
+		for _, f := range scan {
+			an.Instrs(f, func(in ssa.Instruction) {
+				if mu, ok := in.(*ssa.MapUpdate); ok {
+					for _, s0 := range append(an.Sources(mu.Key), an.SourcesOpaque(mu.Key)...) {
+						if _, sn, fld, isF := an.FieldOf(s0); isF && fld == "Id" && strings.HasSuffix(sn, "pkg/resource.CollectionChange") {
+							keyed = true
+						}
+					}
+				}
+			})
+		}
 		if !keyed {
 			continue
 		}
